@@ -26,8 +26,16 @@ def gmul (a b : UInt8) : UInt8 := gmulAux 8 0 a b
 
 def gpow (a : UInt8) (n : Nat) : UInt8 := loopN n (fun _ r => gmul r a) 1
 
-/-- Multiplicative inverse (`a^254`), with `0 ↦ 0`. -/
-def ginv (a : UInt8) : UInt8 := gpow a 254
+/-- Multiplicative inverse (`a^254 = a^2·a^4·a^8·a^16·a^32·a^64·a^128`), with `0 ↦ 0`. -/
+def ginv (a : UInt8) : UInt8 :=
+  let a2 := gmul a a
+  let a4 := gmul a2 a2
+  let a8 := gmul a4 a4
+  let a16 := gmul a8 a8
+  let a32 := gmul a16 a16
+  let a64 := gmul a32 a32
+  let a128 := gmul a64 a64
+  gmul (gmul (gmul a2 a4) (gmul a8 a16)) (gmul (gmul a32 a64) a128)
 
 def rotl8 (x n : UInt8) : UInt8 := (x <<< n) ||| (x >>> (8 - n))
 
